@@ -223,6 +223,7 @@ section concrete
 (`GetPointFromX`), Legendre symbol, point formulas and scalar-field reduction -/
 def realEnv (sqrt : Fp → Option Fp) : ElemEnv Fp Fr where
   a := bandersnatch.a
+  d := bandersnatch.d
   lex := Fp.lexLargest
   legendre := Fp.legendre
   encBE := Zp.bytesBE
@@ -230,7 +231,7 @@ def realEnv (sqrt : Fp → Option Fp) : ElemEnv Fp Fr where
   decCanon := fun b => if h : beNat b < P then some ⟨beNat b, h⟩ else none
   decReduce := fun b => Zp.ofNat P (beNat b)
   fromProj := Proj.toAff
-  getPointFromX := fun x l => (computeY sqrt x l).map (fun y => ⟨x, y⟩)
+  sqrt := sqrt
   batchInvert := batchInvert
   pAdd := Pt.add
   pDouble := Pt.double
@@ -244,6 +245,8 @@ def realEnv (sqrt : Fp → Option Fp) : ElemEnv Fp Fr where
 theorem zp_mul_comm {n : Nat} [NeZero n] (a b : Zp n) : a * b = b * a := by
   show Zp.ofNat n (a.val * b.val) = Zp.ofNat n (b.val * a.val)
   rw [Nat.mul_comm]
+
+theorem zp_div_eq {n : Nat} [NeZero n] (a b : Zp n) : a / b = a * b⁻¹ := rfl
 
 theorem legendre_range (v : Fp) : Fp.legendre v = 0 ∨ Fp.legendre v = 1 ∨ Fp.legendre v = -1 := by
   unfold Fp.legendre
@@ -263,6 +266,30 @@ theorem legendre_le_zero_iff (v : Fp) : Fp.legendre v ≤ 0 ↔ ¬ (Fp.legendre 
 theorem subgroupCheck_gen {K S : Type} [Zero K] [One K] [Add K] [Sub K] [Mul K] [Neg K] [Inv K] [DecidableEq K] [Zero S]
     (E : ElemEnv K S) (x : K) :
     go_subgroupCheck E x = if E.legendre (1 - x * x * E.a) ≤ 0 then none else some () := rfl
+
+/-- **`computeY` (bandersnatch.go), translated from the source, is the model's `computeY`**:
+radicand `(a x² − 1)/(d x² − 1)`, the square-root routine, the choice of the requested root -/
+theorem computeY_eq (sqrt : Fp → Option Fp) (x : Fp) (l : Bool) :
+    go_computeY (realEnv sqrt) x l = computeY sqrt x l := by
+  unfold go_computeY computeY
+  have ha : x * x * bandersnatch.a = bandersnatch.a * (x * x) := zp_mul_comm _ _
+  have hd : x * x * bandersnatch.d = bandersnatch.d * (x * x) := zp_mul_comm _ _
+  simp only [realEnv, ha, hd, zp_div_eq]
+  cases sqrt ((bandersnatch.a * (x * x) - 1) * (bandersnatch.d * (x * x) - 1)⁻¹) with
+  | none => rfl
+  | some y =>
+    simp only
+    by_cases h : l = Fp.lexLargest y
+    · subst h; simp
+    · have h' : ¬ Fp.lexLargest y = l := fun h' => h h'.symm
+      simp [h, h']
+
+/-- `GetPointFromX` = the model's `computeY` paired with `x` -/
+theorem getPointFromX_eq (sqrt : Fp → Option Fp) (x : Fp) (l : Bool) :
+    go_GetPointFromX (realEnv sqrt) x l = (computeY sqrt x l).map (fun y => (⟨x, y⟩ : Aff Fp)) := by
+  unfold go_GetPointFromX
+  rw [computeY_eq]
+  cases computeY sqrt x l <;> rfl
 
 theorem sgc_aux (L : Int) (hr : L = 0 ∨ L = 1 ∨ L = -1) [d : Decidable (L ≤ 0)] :
     (if L ≤ 0 then (none : Option Unit) else some ()) = if (L == 1) = true then some () else none := by
@@ -288,7 +315,7 @@ theorem setBytes_eq (sqrt : Fp → Option Fp) (p : Pt) (buf : Bytes) (trusted : 
   · have t1 : ¬ (((buf.length : Nat) : Int) ≠ 32) := by omega
     have t2 : ¬ (buf.length ≠ 32) := not_not_intro hl
     rw [if_neg t1, if_neg t2]
-    simp only [subgroupCheck_eq]
+    simp only [subgroupCheck_eq, getPointFromX_eq]
     by_cases hc : beNat buf < P
     · simp only [realEnv, hc, ↓reduceDIte]
       cases hy : computeY sqrt ⟨beNat buf, hc⟩ true with
@@ -317,7 +344,7 @@ theorem SetBytesUncompressed_eq (sqrt : Fp → Option Fp) (p : Pt) (buf : Bytes)
     have t2 : ¬ (buf.length ≠ 64) := not_not_intro hl
     rw [if_neg t1, if_neg t2]
     have h32 : (32 : Int).toNat = 32 := rfl
-    simp only [subgroupCheck_eq, Loop.take, Loop.drop, h32]
+    simp only [subgroupCheck_eq, getPointFromX_eq, Loop.take, Loop.drop, h32]
     cases trusted with
     | true => simp [realEnv, Except.toOption]
     | false =>
@@ -360,6 +387,6 @@ theorem equal_real (sqrt : Fp → Option Fp) (p q : Pt) : go_Equal (realEnv sqrt
 end concrete
 
 /-- what the translator covered, and the one function it leaves to the heap model -/
-theorem coverage : Gen.Elements.notTranslated = ["BatchNormalize"] ∧ Gen.Elements.translated.length = 23 := by decide
+theorem coverage : Gen.Elements.notTranslated = ["BatchNormalize"] ∧ Gen.Elements.translated.length = 25 := by decide
 
 end GoIpa.Tie.Elements
